@@ -7,7 +7,7 @@ import sys
 import traceback
 
 sys.path.insert(0, os.path.dirname(os.path.dirname(os.path.abspath(__file__))))
-sys.path.insert(0, "/repo")
+sys.path.insert(0, os.environ.get("VERIF_REPO") or "/repo")
 sys.dont_write_bytecode = True
 
 from vlib import tlc            # noqa: E402
